@@ -276,6 +276,7 @@ func (w *World) checkInterp(m *scoreModel, add func(ok bool, rule, inst string, 
 	}
 	w.checkV4Mono(m, levelsOf, levelSum, classOf, add)
 	okRange := minV.Sign() >= 0 && maxV.Cmp(ten) <= 0 && negDist == 0
+	add(okRange, "R11.range", "Score.interp", fd, fmt.Sprintf("exact pre-rounding v4 score of all %d classes lies in [%s, %s]: within the 0–10 scale", total, minV.FloatString(4), maxV.FloatString(4)))
 	add(okRange, "R04.range", "Score.interp", fd, fmt.Sprintf("%d (MacroVector, achievable distance tuple) classes tabulated exactly: pre-rounding score in [%s, %s] (min at %s; max at %s); negative distances: %d", total, minV.FloatString(4), maxV.FloatString(4), minEx, maxEx, negDist))
 	// R04.round: the rounding helper, evaluated under the float64 error model on
 	// every distinct exact value (the value reaches it with an evaluation error
